@@ -65,13 +65,15 @@ def variant_tag(pat):
 
 
 class Tracer:
-    def __init__(self, crate, classify, may_err=None, closure_mode=None, max_paths=4000, value_of_call=None):
+    def __init__(self, crate, classify, may_err=None, closure_mode=None, max_paths=4000, value_of_call=None,
+                 cond_events=()):
         self.crate = crate
         self.classify = classify
         self.may_err = may_err or (lambda e: True)
         self.closure_mode = closure_mode or self.default_closure_mode
         self.max_paths = max_paths
         self.value_of_call = value_of_call
+        self.cond_events = set(cond_events)
         self.env = {}
         self.depth = 0
 
@@ -167,15 +169,82 @@ class Tracer:
         return None
 
     # ----------------------------------------------------------------- arms with edge events
+    def source_label(self, e):
+        """label (with projection) of the labelled call an expression's value comes from, or None"""
+        core = peel(e)
+        if not isinstance(core, dict):
+            return None
+        proj = ''
+        while core.get('k') == 'field':
+            proj = '.' + core['name'] + proj
+            core = peel(core['e'])
+        if core.get('k') == 'call':
+            sh = short(callee(core))
+            if sh in ('clone', 'as_ref', 'as_mut', 'iter', 'into_iter', 'iter_mut', 'take', 'to_owned') and core['args']:
+                inner = self.source_label(core['args'][0])
+                return inner + proj if inner else None
+            L = self.label(core)
+            return L + proj if L is not None else None
+        if core.get('k') == 'path' and core.get('res') == 'local':
+            b = self.env.get(core.get('id'))
+            if b and b[0] == 'from':
+                return b[1] + proj
+        return None
+
     def edge_event(self, scrut, tag):
         if tag is None or tag == '_':
             return ()
-        core = peel(scrut)
-        if isinstance(core, dict) and core.get('k') == 'call':
-            L = self.label(core)
-            if L is not None:
-                return (f'{L}@{tag}',)
+        L = self.source_label(scrut)
+        if L is not None:
+            return (f'{L}@{tag}',)
         return ()
+
+    def tuple_edge_events(self, scrut, pat):
+        """`match (f(), x, y) { (Some(_), ..) | (Some(_), ..) => .. }`: per tuple position whose element comes from a
+        labelled call, the variant all alternatives of the arm agree on"""
+        from .ir import pat_variants
+        alts = pat['alts'] if pat.get('k') == 'por' else [pat]
+        out = ()
+        for i, el in enumerate(scrut['elems']):
+            L = self.source_label(el)
+            if L is None:
+                continue
+            tags = set()
+            for alt in alts:
+                if alt.get('k') != 'ptuple' or i >= len(alt['args']):
+                    tags.add(None)
+                    continue
+                tags.add(variant_tag(alt['args'][i]))
+            if len(tags) == 1:
+                t = tags.pop()
+                if t and t != '_':
+                    out += (f'{L}@{t}',)
+        return out
+
+    def bind_from(self, pat, src, proj=''):
+        """record that the ids bound by `pat` hold (a projection of) the result of the labelled call `src`"""
+        if not isinstance(pat, dict) or src is None:
+            return
+        k = pat.get('k')
+        if k == 'bind':
+            self.env[pat['id']] = ('from', src + proj)
+            if 'sub' in pat:
+                self.bind_from(pat['sub'], src, proj)
+        elif k == 'pctor':
+            v = short(pat.get('ctor_of') or pat.get('path') or '?')
+            for i, a in enumerate(pat['args']):
+                self.bind_from(a, src, proj + (f'#{v}.{i}' if len(pat['args']) > 1 or v not in ('Some', 'Ok', 'Err') else f'#{v}'))
+        elif k == 'ptuple':
+            for i, a in enumerate(pat['args']):
+                self.bind_from(a, src, proj + f'[{i}]')
+        elif k == 'pstruct':
+            for fl in pat['fields']:
+                self.bind_from(fl['pat'], src, proj + '.' + fl['name'])
+        elif k == 'por':
+            for a in pat['alts']:
+                self.bind_from(a, src, proj)
+        elif k == 'pguard':
+            self.bind_from(pat['pat'], src, proj)
 
     def starred(self, t):
         return tuple(x if x.endswith('*') else x + '*' for x in t)
@@ -197,7 +266,9 @@ class Tracer:
             init = e.get('init')
             r = self.expr(init) if init is not None else {('fall', Z, 'unk')}
             p = e['pat']
-            if p.get('k') == 'bind' and init is not None:
+            if init is not None:
+                self.bind_from(p, self.source_label(init))
+            if p.get('k') == 'bind' and init is not None and self.env.get(p['id'], ('',))[0] != 'from':
                 if init.get('k') == 'closure':
                     self.env[p['id']] = ('closure', init['def'])
                 elif init.get('k') == 'call' and short(callee(init)) in ('instrument', 'in_current_span') and self.async_block_of(init):
@@ -238,6 +309,10 @@ class Tracer:
             L = self.label(e)
             if L:
                 r = {(ex, t + (L,) if ex == 'fall' else t, v) for (ex, t, v) in r}
+            if self.value_of_call is not None and tgt is None:
+                nv = self.value_of_call(e)
+                if nv:
+                    r = {(ex, t, nv if ex == 'fall' and v in ('unk', 'maybe') else v) for (ex, t, v) in r}
             return r
         if k == 'try':
             r = self.expr(e['e'])
@@ -250,7 +325,7 @@ class Tracer:
                     if v not in ('err', 'none'):
                         out.add(('fall', t + okev, 'unk'))
                     if v not in ('ok', 'some') and fallible:
-                        out.add(('try', t + errev, 'err'))
+                        out.add(('try', t + errev, 'err' if v != 'none' else 'none'))
                 else:
                     out.add((ex, t, v))
             return out
@@ -362,7 +437,18 @@ class Tracer:
         if c.get('k') == 'letcond':
             tag = variant_tag(c['pat'])
             neg = {'Some': 'None', 'Ok': 'Err', 'None': 'Some', 'Err': 'Ok'}.get(tag)
+            src = self.source_label(c['init'])
+            if src is not None:
+                # the pattern's own variant is part of the projection of what it binds
+                self.bind_from(c['pat'], src)
             return self.expr(c['init']), self.edge_event(c['init'], tag), self.edge_event(c['init'], neg)
+        if self.cond_events:
+            inner, pol = c, True
+            while isinstance(inner, dict) and inner.get('k') == 'unary' and inner.get('op') == 'Not':
+                inner, pol = inner['e'], not pol
+            if inner.get('k') == 'path' and inner.get('res') == 'local' and inner.get('name') in self.cond_events:
+                n = inner['name']
+                return self.expr(c), (f'?{n}={int(pol)}',), (f'?{n}={int(not pol)}',)
         return self.expr(c), (), ()
 
     def if_(self, e):
@@ -381,6 +467,7 @@ class Tracer:
         scrut = e['scrut']
         # value-class refinement: a scrutinee known to be ok/err/some/none takes only the matching arms
         sp = self.expr(scrut)
+        src_label = self.source_label(scrut)
 
         def arms_for(val):
             out = set()
@@ -390,6 +477,9 @@ class Tracer:
                         val == 'some' and tag == 'None' or val == 'none' and tag == 'Some':
                     continue
                 ev = self.edge_event(scrut, tag)
+                if scrut.get('k') == 'tuple':
+                    ev = self.tuple_edge_events(scrut, a['pat'])
+                self.bind_from(a['pat'], src_label)
                 if 'guard' in a:
                     body = self.seq(self.expr(a['guard']), lambda a=a: self.expr(a['body']))
                 else:
@@ -413,6 +503,10 @@ class Tracer:
     def loop(self, e):
         k = e['k']
         head = self.expr(e['iter']) if k == 'for' else {('fall', (), 'unk')}
+        if k == 'for' and e.get('pat') is not None and e.get('iter') is not None:
+            src = self.source_label(e['iter'])
+            if src is not None:
+                self.bind_from(e['pat'], src + '[*]')
 
         def body():
             b = self.expr(e['body'])
